@@ -432,3 +432,25 @@ M("C16", "M17-tracking-error-level-diff", (ME, "        excess_returns = self.ex
 M("C16", "M18-cumret-first-row", (ME, "        level_start = level.loc[level.first_valid_index()]\n        return level / level_start - 1", "        level_start = level.loc[level.first_valid_index()]\n        return level - level_start"), "S1.scale-invariant")
 E("C16", "E1-drawdown-div", (ME, "        return level / level.cummax() - 1", "        peak = level.cummax()\n        return level / peak - 1"))
 E("C16", "E2-years-local", (ME, "        cagr = (level.iloc[-1] / level.iloc[0]) ** (1 / years) - 1\n        return cagr", "        growth = level.iloc[-1] / level.iloc[0]\n        return growth ** (1 / years) - 1"))
+
+# ------------------------------------------------------------------ C18
+M("C18", "M1-half-spread-full", (TM, "                half_spread = price * spread / 2", "                half_spread = price * spread"), "S1.quote-from-price")
+M("C18", "M2-rate-with-spread", (EN, "        transmitter.add_prices(rate.to_frame())", "        transmitter.add_prices(rate.to_frame(), spread)"), "S1.rate-without-spread")
+M("C18", "M3-published-shifted", (EN, "        self.X = X\n        self.Y = Y", "        self.X = X.shift(1)\n        self.Y = Y"), "S2.published-X-is-served-X")
+M("C18", "M4-window-off-by-one", (EN, "        timesteps = timesteps[window:]", "        timesteps = timesteps[window - 1:]"), "S3")
+M("C18", "M5-no-holiday-drop", (EN, "        timesteps = Y.drop([t for t in holidays if t in Y.index]).index", "        timesteps = Y.index"), "S3")
+M("C18", "M6-stride-from-oldest", (ST, "            x = x[::-self.stride][::-1]", "            x = x[::self.stride]"), "S4.stride-from-most-recent")
+M("C18", "M7-spread-is-fee", (EN, "            transmitter=self._make_transmitter(X, Y, calendar, spread, rate, folds, window),", "            transmitter=self._make_transmitter(X, Y, calendar, fee, rate, folds, window),"), "S1.transmitter-arguments")
+M("C18", "M8-asymmetric-clip", (EN, "        X.clip(-clip, clip, inplace=True)", "        X.clip(0, clip, inplace=True)"), "S5.symmetric-clip")
+M("C18", "M9-clip-before-fill", (EN, "        X.ffill(inplace=True)\n        X.fillna(0., inplace=True)\n        X.clip(-clip, clip, inplace=True)", "        X.clip(-clip, clip, inplace=True)\n        X.ffill(inplace=True)\n        X.fillna(0., inplace=True)"), "S5")
+M("C18", "M10-warmup-short", (EN, "        warmup = None if markov_reset else timedelta(days=3 + window * 2)", "        warmup = None if markov_reset else timedelta(days=3 + window)"), "S6.warmup-covers-window")
+M("C18", "M11-observations-filtered", (EN, "        events = [EventNewObservation(t, x) for t, x in X.iterrows()]", "        events = [EventNewObservation(t, x) for t, x in X.iterrows() if t in Y.index]"), "S2.one-observation-per-row")
+M("C18", "M12-no-prefill", (ST, "        if self.last_event is None:\n            for _ in range(self.queue.maxlen):\n                self.queue.append([event.to_list()])\n", ""), "S4.prefill-on-first-event")
+M("C18", "M13-shape-floor", (ST, "        m = window if stride is None else math.ceil(window / stride)", "        m = window if stride is None else window // stride"), "S4.declared-shape")
+M("C18", "M14-queue-window-plus-1", (ST, "        self.queue = deque(maxlen=window)", "        self.queue = deque(maxlen=window + 1)"), "S4.queue-capacity-window")
+M("C18", "M15-bid-is-price", (TM, "                    bid_price=price - half_spread,", "                    bid_price=price,"), "S1.quote-from-price")
+M("C18", "M16-table-mutated-after", (EN, "        # Set attributes.\n        self.X = X", "        # Set attributes.\n        X.fillna(1., inplace=True)\n        self.X = X"), "S")
+M("C18", "M17-margin-not-passed", (EN, "            action_space=BoxPortfolio(Y.columns, max_short, max_long, margin=margin),", "            action_space=BoxPortfolio(Y.columns, max_short, max_long),"), "S6.env-config-action_space")
+M("C18", "M18-holidays-half-open", (EN, "        Y = Y.loc[start:end]\n        timesteps = Y.drop([t for t in holidays if t in Y.index]).index", "        Y = Y.loc[start:end]\n        holidays = holidays[(holidays >= start) & (holidays < end)]\n        timesteps = Y.drop([t for t in holidays if t in Y.index]).index"), "S3")
+E("C18", "E1-bid-factor", (TM, "                half_spread = price * spread / 2\n                event = EventNBBO(\n                    time=time,\n                    contract=contract,\n                    bid_price=price - half_spread,\n                    ask_price=price + half_spread,", "                event = EventNBBO(\n                    time=time,\n                    contract=contract,\n                    bid_price=price * (1 - spread / 2),\n                    ask_price=price * (1 + spread / 2),"))
+E("C18", "E2-timesteps-local", (EN, "        timesteps = Y.drop([t for t in holidays if t in Y.index]).index\n        timesteps = timesteps[window:]\n        return timesteps", "        open_days = Y.drop([t for t in holidays if t in Y.index]).index\n        return open_days[window:]"))
